@@ -11,6 +11,9 @@ restates `Peer.dispatch`, `Peer.sapEnqueue`, `Sap.target`, `Collect.collect` (to
 `aggAcks`) with the regenerated pieces; `Props/FnBridgeLlcRun.lean` proves them equal to the model functions.
 Group Llc (harness/fnspecs/llc.py) has the arithmetic of `collect` (budget, ICV, first-PDU-full test), the DM reason and the
 'no such service' test of connect-by-name; they are reused here (`Gen.Fn.llc_*`).
+Condition cuts are `whole=True`: the expression must be the COMPLETE test of its `if` / `while` / conditional
+expression / assert (or the whole value of its statement, the iterable of its `for`), so wrapping it (`c is True`,
+`c or x`) breaks the bridge; the few cuts that are operands of a larger test say so in their note.
 Not translated: the `for .. else` loops over `sock_list` (for/else), `socket.enqueue/dequeue` (group Tco), the
 key agreement itself, float arithmetic of the timeouts.
 """
@@ -25,20 +28,20 @@ _SENDNAME = [("self.sec", "has_sec", BOOL), ("send_pdu.name", "name", STR)]
 SPECS = [
     # dispatch
     Spec(GROUP, "lr_dispatch_ignore", F, LLC + "dispatch", [], binds=[("rcvd_pdu is None", "is_none", BOOL)] + _NAME,
-         expr="rcvd_pdu is None or rcvd_pdu.name == 'SYMM'", note='cut: the test that ignores None and SYMM; `rcvd_pdu is None` is a bool parameter, `name` any str then'),
-    Spec(GROUP, "lr_dispatch_is_agf", F, LLC + "dispatch", [], binds=_NAME, expr="rcvd_pdu.name == 'AGF'", note='cut: the test for an aggregated frame'),
+         whole=True, expr="rcvd_pdu is None or rcvd_pdu.name == 'SYMM'", note='cut: the test that ignores None and SYMM; `rcvd_pdu is None` is a bool parameter, `name` any str then'),
+    Spec(GROUP, "lr_dispatch_is_agf", F, LLC + "dispatch", [], binds=_NAME, whole=True, expr="rcvd_pdu.name == 'AGF'", note='cut: the test for an aggregated frame'),
     Spec(GROUP, "lr_dispatch_agf_ok", F, LLC + "dispatch", [], binds=[("rcvd_pdu.dsap", "dsap", INT), ("rcvd_pdu.ssap", "ssap", INT)],
-         expr="rcvd_pdu.dsap == 0 and rcvd_pdu.ssap == 0", note='cut: an aggregate is unpacked only when addressed 0 -> 0'),
+         whole=True, expr="rcvd_pdu.dsap == 0 and rcvd_pdu.ssap == 0", note='cut: an aggregate is unpacked only when addressed 0 -> 0'),
     Spec(GROUP, "lr_dispatch_by_name", F, LLC + "dispatch", [], binds=_NAME + [("rcvd_pdu.dsap", "dsap", INT)],
-         expr="rcvd_pdu.name == 'CONNECT' and rcvd_pdu.dsap == 1", note='cut: the connect-by-name test (CONNECT to the service discovery address 1)'),
+         whole=True, expr="rcvd_pdu.name == 'CONNECT' and rcvd_pdu.dsap == 1", note='cut: the connect-by-name test (CONNECT to the service discovery address 1)'),
     Spec(GROUP, "lr_dispatch_decrypt", F, LLC + "dispatch", [], binds=[("self.sec", "has_sec", BOOL)] + _NAME,
-         expr="self.sec and rcvd_pdu.name in ('UI', 'I')", ret=BOOL, note='cut: which received PDUs are decrypted (truth value); `self.sec` (cipher or None) as a bool'),
+         whole=True, expr="self.sec and rcvd_pdu.name in ('UI', 'I')", ret=BOOL, note='cut: which received PDUs are decrypted (truth value); `self.sec` (cipher or None) as a bool'),
     Spec(GROUP, "lr_dispatch_sap_at", F, LLC + "dispatch", [], binds=[("self.sap", "sap_table", LIST(OPT(INT))), ("rcvd_pdu.dsap", "dsap", INT)],
-         expr="self.sap[rcvd_pdu.dsap]", note='cut: the table lookup `self.sap[rcvd_pdu.dsap]` (IndexError outside the table); an entry is None or a marker'),
-    Spec(GROUP, "lr_dispatch_sap_ok", F, LLC + "dispatch", [("sap", OPT(INT))], path=[(4, "body")], stmts=[1], expr="sap", ret=BOOL, note='cut: the test `if sap:` of the entry found (truth value; a service access point object is never false: marker != 0)'),
+         whole=True, expr="self.sap[rcvd_pdu.dsap]", note='cut: the table lookup `self.sap[rcvd_pdu.dsap]` (IndexError outside the table); an entry is None or a marker'),
+    Spec(GROUP, "lr_dispatch_sap_ok", F, LLC + "dispatch", [("sap", OPT(INT))], path=[(4, "body")], stmts=[1], whole=True, expr="sap", ret=BOOL, note='cut: the test `if sap:` of the entry found (truth value; a service access point object is never false: marker != 0)'),
     # enqueue
     Spec(GROUP, "lr_enqueue_peer_sel", F, SAP + "enqueue", [], binds=[("rcvd_pdu.ssap", "ssap", INT), ("socket.peer is None", "peer_none", BOOL), ("socket.peer", "peer", INT)],
-         expr="rcvd_pdu.ssap == socket.peer or socket.peer is None", note='cut: the socket selected for a non-CONNECT PDU: peer matches or socket not connected; the None test of `socket.peer` is a bool parameter, its value an int (any int when None)'),
+         whole=True, expr="rcvd_pdu.ssap == socket.peer or socket.peer is None", note='cut: the socket selected for a non-CONNECT PDU: peer matches or socket not connected; the None test of `socket.peer` is a bool parameter, its value an int (any int when None)'),
     Spec(GROUP, "lr_enqueue_dm_no_listener", F, SAP + "enqueue", [], binds=[("rcvd_pdu.ssap", "ssap", INT), ("rcvd_pdu.dsap", "dsap", INT)],
          path=[(0, "body"), (0, "body"), (0, "orelse")], stmts=[0], result=["args"], note='cut: the DM(reason 02h) arguments when no socket listens'),
     Spec(GROUP, "lr_enqueue_dm_no_peer", F, SAP + "enqueue", [], binds=[("rcvd_pdu.ssap", "ssap", INT), ("rcvd_pdu.dsap", "dsap", INT)],
@@ -61,68 +64,188 @@ SPECS = [
          path=[(0, "body"), (0, "body")], ret=OPT(INT), note='cut: the `try` body of the `mode` property: the three isinstance tests on `self.sock_list[0]` are bool parameters (their IndexError for an empty list is the handler, lr_sap_mode_empty); None = falls off the end'),
     Spec(GROUP, "lr_sap_mode_empty", F, SAP + "mode", [], path=[(0, "body"), (0, ("handlers", 0))], note='cut: the `except IndexError` handler: a SAP without sockets reports mode 0 (= RAW_ACCESS_POINT)'),
     Spec(GROUP, "lr_remove_last", F, SAP + "remove_socket", [], binds=[("self.sock_list", "sock_list", LIST(INT))],
-         expr="len(self.sock_list) == 0", note='cut: the SAP is removed when its last socket is gone; `self.sock_list` as a list of markers'),
+         whole=True, expr="len(self.sock_list) == 0", note='cut: the SAP is removed when its last socket is gone; `self.sock_list` as a list of markers'),
     Spec(GROUP, "lr_remove_name", F, SAP + "remove_socket", [("addr", INT)], binds=[("self.addr", "own", INT)],
-         expr="addr == self.addr", note='cut: which service names are deleted with the SAP (`addr` is the loop variable)'),
+         whole=True, expr="addr == self.addr", note='cut: which service names are deleted with the SAP (`addr` is the loop variable)'),
     # collect
     Spec(GROUP, "lr_collect_raw_key", F, LLC + "collect", [], binds=[("sap.mode", "mode", INT)], expr="sap.mode == RAW_ACCESS_POINT", note='cut: the sort key of the first loop (raw access points first)'),
-    Spec(GROUP, "lr_collect_dlc_mode0", F, LLC + "collect", [], binds=[("sap.mode", "mode", INT)], expr="sap.mode == DATA_LINK_CONNECTION", nth=0, note='cut: voluntary acknowledgement only from data link connection SAPs (first occurrence: nothing dequeued)'),
-    Spec(GROUP, "lr_collect_dlc_mode1", F, LLC + "collect", [], binds=[("sap.mode", "mode", INT)], expr="sap.mode == DATA_LINK_CONNECTION", nth=1, note='cut: voluntary acknowledgement only from data link connection SAPs (second occurrence: end of aggregation)'),
-    Spec(GROUP, "lr_collect_encrypt0", F, LLC + "collect", [], binds=_SENDNAME, expr="self.sec and send_pdu.name in ('UI', 'I')", nth=0, ret=BOOL, note='cut: which PDUs are encrypted, first loop (truth value); `self.sec` as a bool'),
-    Spec(GROUP, "lr_collect_encrypt1", F, LLC + "collect", [], binds=_SENDNAME, expr="self.sec and send_pdu.name in ('UI', 'I')", nth=1, ret=BOOL, note='cut: which PDUs are encrypted, aggregation loop (truth value)'),
+    Spec(GROUP, "lr_collect_dlc_mode0", F, LLC + "collect", [], binds=[("sap.mode", "mode", INT)], whole=True, expr="sap.mode == DATA_LINK_CONNECTION", nth=0, note='cut: voluntary acknowledgement only from data link connection SAPs (first occurrence: nothing dequeued)'),
+    Spec(GROUP, "lr_collect_dlc_mode1", F, LLC + "collect", [], binds=[("sap.mode", "mode", INT)], whole=True, expr="sap.mode == DATA_LINK_CONNECTION", nth=1, note='cut: voluntary acknowledgement only from data link connection SAPs (second occurrence: end of aggregation)'),
+    Spec(GROUP, "lr_collect_encrypt0", F, LLC + "collect", [], binds=_SENDNAME, whole=True, expr="self.sec and send_pdu.name in ('UI', 'I')", nth=0, ret=BOOL, note='cut: which PDUs are encrypted, first loop (truth value); `self.sec` as a bool'),
+    Spec(GROUP, "lr_collect_encrypt1", F, LLC + "collect", [], binds=_SENDNAME, whole=True, expr="self.sec and send_pdu.name in ('UI', 'I')", nth=1, ret=BOOL, note='cut: which PDUs are encrypted, aggregation loop (truth value)'),
     Spec(GROUP, "lr_collect_no_agf", F, LLC + "collect", [], binds=[("send_pdu is None", "nothing", BOOL), ("self.cfg['send-agf']", "agf", BOOL)],
-         expr="send_pdu is None or self.cfg['send-agf'] is False", note='cut: return without aggregation; `send_pdu is None` is a bool parameter'),
-    Spec(GROUP, "lr_collect_loop_go", F, LLC + "collect", [("miu_size", INT)], expr="miu_size >= 0", nth=0, note='cut: condition of the aggregation `while`'),
-    Spec(GROUP, "lr_collect_pass_stop", F, LLC + "collect", [("miu_size", INT)], expr="miu_size < 0", nth=0, note='cut: the `break` inside the aggregation pass (first `miu_size < 0`)'),
-    Spec(GROUP, "lr_collect_loop_stop", F, LLC + "collect", [("miu_size", INT), ("deq_none", BOOL)], expr="miu_size < 0 or deq_none", note='cut: the `break` behind an aggregation pass'),
-    Spec(GROUP, "lr_collect_acks_go", F, LLC + "collect", [("miu_size", INT)], expr="miu_size >= 0", nth=1, note='cut: acknowledgements are added only with budget left (second `miu_size >= 0`)'),
-    Spec(GROUP, "lr_collect_acks_stop", F, LLC + "collect", [("miu_size", INT)], expr="miu_size < 0", nth=2,
-         note='cut: the `break` of the acknowledgement loop (third `miu_size < 0`; the second is part of lr_collect_loop_stop)'),
+         whole=True, expr="send_pdu is None or self.cfg['send-agf'] is False", note='cut: return without aggregation; `send_pdu is None` is a bool parameter'),
+    Spec(GROUP, "lr_collect_loop_go", F, LLC + "collect", [("miu_size", INT)], whole=True, expr="miu_size >= 0", nth=0, note='cut: condition of the aggregation `while`'),
+    Spec(GROUP, "lr_collect_pass_stop", F, LLC + "collect", [("miu_size", INT)], whole=True, expr="miu_size < 0", nth=0, note='cut: the `break` inside the aggregation pass (first `miu_size < 0`)'),
+    Spec(GROUP, "lr_collect_loop_stop", F, LLC + "collect", [("miu_size", INT), ("deq_none", BOOL)], whole=True, expr="miu_size < 0 or deq_none", note='cut: the `break` behind an aggregation pass'),
+    Spec(GROUP, "lr_collect_acks_go", F, LLC + "collect", [("miu_size", INT)], whole=True, expr="miu_size >= 0", nth=1, note='cut: acknowledgements are added only with budget left (second `miu_size >= 0`)'),
+    Spec(GROUP, "lr_collect_acks_stop", F, LLC + "collect", [("miu_size", INT)], whole=True, expr="miu_size < 0", nth=1,
+         note='cut: the `break` of the acknowledgement loop (second whole test `miu_size < 0`; the occurrence inside `miu_size < 0 or deq_none` is lr_collect_loop_stop)'),
     Spec(GROUP, "lr_collect_result", F, LLC + "collect", [], binds=[("agf_pdu.count", "count", INT)],
-         expr="agf_pdu.count > 1", note="cut: an aggregate is sent only with more than one PDU in it (else the PDU itself)"),
+         whole=True, expr="agf_pdu.count > 1", note="cut: an aggregate is sent only with more than one PDU in it (else the PDU itself)"),
     # exchange
-    Spec(GROUP, "lr_exchange_has_data", F, LLC + "exchange", [("rcvd_data", OPT(BYTES))], expr="rcvd_data is not None", note='cut: a PDU is decoded only when the MAC returned data'),
+    Spec(GROUP, "lr_exchange_has_data", F, LLC + "exchange", [("rcvd_data", OPT(BYTES))], whole=True, expr="rcvd_data is not None", note='cut: a PDU is decoded only when the MAC returned data'),
     # run loops
     Spec(GROUP, "lr_run_timeout_ms", F, LLC + "run_as_initiator", [], binds=[("self.cfg['recv-lto']", "recv_lto", INT)],
          expr="self.cfg['recv-lto'] + 10", note='cut: the integer part of the receive timeout (milliseconds; the factor 1E-3 is float arithmetic, not translated)'),
     Spec(GROUP, "lr_run_timeout_ms_t", F, LLC + "run_as_target", [], binds=[("self.cfg['recv-lto']", "recv_lto", INT)],
          expr="self.cfg['recv-lto'] + 10", note='cut: the same in run_as_target'),
-    Spec(GROUP, "lr_run_secure", F, LLC + "run_as_initiator", [], binds=[("self.cfg['llcp-dpc']", "dpc", INT)], expr="self.cfg['llcp-dpc'] == 1", note='cut: the key agreement runs iff the negotiated DPC is 1'),
-    Spec(GROUP, "lr_run_secure_t", F, LLC + "run_as_target", [], binds=[("self.cfg['llcp-dpc']", "dpc", INT)], expr="self.cfg['llcp-dpc'] == 1", note='cut: the same in run_as_target'),
+    Spec(GROUP, "lr_run_secure", F, LLC + "run_as_initiator", [], binds=[("self.cfg['llcp-dpc']", "dpc", INT)], whole=True, expr="self.cfg['llcp-dpc'] == 1", note='cut: the key agreement runs iff the negotiated DPC is 1'),
+    Spec(GROUP, "lr_run_secure_t", F, LLC + "run_as_target", [], binds=[("self.cfg['llcp-dpc']", "dpc", INT)], whole=True, expr="self.cfg['llcp-dpc'] == 1", note='cut: the same in run_as_target'),
     Spec(GROUP, "lr_run_ecpk_bad", F, LLC + "run_as_initiator", [], binds=[("rcvd_dps.ecpk", "ecpk", BYTES)],
-         expr="not (rcvd_dps.ecpk and len(rcvd_dps.ecpk) == 64)", note='cut: the ECPK check of the received DPS PDU; None behaves like the empty string'),
+         whole=True, expr="not (rcvd_dps.ecpk and len(rcvd_dps.ecpk) == 64)", note='cut: the ECPK check of the received DPS PDU; None behaves like the empty string'),
     Spec(GROUP, "lr_run_rn_bad", F, LLC + "run_as_initiator", [], binds=[("rcvd_dps.rn", "rn", BYTES)],
-         expr="not (rcvd_dps.rn and len(rcvd_dps.rn) == 8)", note='cut: the RN check of the received DPS PDU; None behaves like the empty string'),
+         whole=True, expr="not (rcvd_dps.rn and len(rcvd_dps.rn) == 8)", note='cut: the RN check of the received DPS PDU; None behaves like the empty string'),
     Spec(GROUP, "lr_run_ecpk_bad_t", F, LLC + "run_as_target", [], binds=[("rcvd_dps.ecpk", "ecpk", BYTES)],
-         expr="not (rcvd_dps.ecpk and len(rcvd_dps.ecpk) == 64)", note='cut: the same in run_as_target'),
+         whole=True, expr="not (rcvd_dps.ecpk and len(rcvd_dps.ecpk) == 64)", note='cut: the same in run_as_target'),
     Spec(GROUP, "lr_run_rn_bad_t", F, LLC + "run_as_target", [], binds=[("rcvd_dps.rn", "rn", BYTES)],
-         expr="not (rcvd_dps.rn and len(rcvd_dps.rn) == 8)", note='cut: the same in run_as_target'),
-    Spec(GROUP, "lr_run_go_on", F, LLC + "run_as_initiator", [], binds=[("terminate()", "terminated", BOOL)], expr="not terminate()", note='cut: condition of the run loop'),
-    Spec(GROUP, "lr_run_go_on_t", F, LLC + "run_as_target", [], binds=[("terminate()", "terminated", BOOL)], expr="not terminate()", note='cut: the same in run_as_target'),
+         whole=True, expr="not (rcvd_dps.rn and len(rcvd_dps.rn) == 8)", note='cut: the same in run_as_target'),
+    Spec(GROUP, "lr_run_go_on", F, LLC + "run_as_initiator", [], binds=[("terminate()", "terminated", BOOL)], whole=True, expr="not terminate()", note='cut: condition of the run loop'),
+    Spec(GROUP, "lr_run_go_on_t", F, LLC + "run_as_target", [], binds=[("terminate()", "terminated", BOOL)], whole=True, expr="not terminate()", note='cut: the same in run_as_target'),
     Spec(GROUP, "lr_run_symm_count", F, LLC + "run_as_initiator", [("symm", INT)], binds=_NAME,
          path=[(4, "body"), (3, "body")], stmts=[4], result=["symm"], note='cut: the SYMM counter update (statement 4 of the loop body); result: symm'),
     Spec(GROUP, "lr_run_symm_count_t", F, LLC + "run_as_target", [("symm", INT)], binds=[("isinstance(rcvd_pdu, pdu.Symmetry)", "is_symm", BOOL)],
          path=[(4, "body"), (2, "body")], stmts=[2], result=["symm"], note='cut: the SYMM counter update of run_as_target (statement 2 of the loop body; the isinstance test is a bool parameter)'),
     Spec(GROUP, "lr_run_idle", F, LLC + "run_as_initiator", [("symm", INT)], binds=[("send_pdu is None", "nothing", BOOL)],
-         expr="send_pdu is None and symm >= 10", note='cut: the long collect delay after ten SYMM PDUs with nothing to send; `send_pdu is None` is a bool parameter'),
+         whole=True, expr="send_pdu is None and symm >= 10", note='cut: the long collect delay after ten SYMM PDUs with nothing to send; `send_pdu is None` is a bool parameter'),
     Spec(GROUP, "lr_run_idle_t", F, LLC + "run_as_target", [("symm", INT)], binds=[("send_pdu is None", "nothing", BOOL)],
-         expr="send_pdu is None and symm >= 10", note='cut: the same in run_as_target'),
+         whole=True, expr="send_pdu is None and symm >= 10", note='cut: the same in run_as_target'),
     Spec(GROUP, "lr_run_finally", F, LLC + "run_as_initiator", [], binds=[("self.link.SHUTDOWN", "shutdown", BOOL)],
-         expr="not self.link.SHUTDOWN", note='cut: the `finally` clause terminates unless the link is already SHUTDOWN'),
+         whole=True, expr="not self.link.SHUTDOWN", note='cut: the `finally` clause terminates unless the link is already SHUTDOWN'),
     Spec(GROUP, "lr_run_finally_t", F, LLC + "run_as_target", [], binds=[("self.link.SHUTDOWN", "shutdown", BOOL)],
-         expr="not self.link.SHUTDOWN", note='cut: the same in run_as_target'),
+         whole=True, expr="not self.link.SHUTDOWN", note='cut: the same in run_as_target'),
     # terminate
-    Spec(GROUP, "lr_terminate_order", F, LLC + "terminate", [], expr="range(63, -1, -1)", note='cut: the order in which terminate() shuts the service access points down'),
+    Spec(GROUP, "lr_terminate_order", F, LLC + "terminate", [], whole=True, expr="range(63, -1, -1)", note='cut: the order in which terminate() shuts the service access points down'),
     Spec(GROUP, "lr_terminate_live", F, LLC + "terminate", [("i", INT)], binds=[("self.sap", "sap_table", LIST(OPT(INT)))],
-         expr="not self.sap[i] is None", note='cut: only live table entries are shut down; `self.sap` as a list of None / markers'),
+         whole=True, expr="not self.sap[i] is None", note='cut: only live table entries are shut down; `self.sap` as a list of None / markers'),
     Spec(GROUP, "lr_terminate_disc", F, LLC + "terminate", [], binds=[("self.link.DISCONNECT", "disconnect", BOOL)],
-         expr="self.link.DISCONNECT is True", note='cut: a DISC PDU is sent only after a local decision to disconnect'),
+         whole=True, expr="self.link.DISCONNECT is True", note='cut: a DISC PDU is sent only after a local decision to disconnect'),
 ]
-BRIDGE = {"module": "NfcVerif.Props.FnBridgeLlcRun", "theorems": [], "properties": ["C07", "C09", "C10"]}
+P = "NfcVerif.FnBridge.LlcRun."
+BRIDGE = {
+    "module": "NfcVerif.Props.FnBridgeLlcRun",
+    "theorems": [P + t for t in (
+        "idx_nat", "peer_sel_bridge", "dm_args_bridge", "sap_enqueue_bridge", "deliver_bridge", "reject_by_name_bridge",
+        "name_tests_bridge", "dispatch_s_bridge", "dispatch_all_bridge", "dispatch_bridge", "gen_dispatch_total",
+        "gen_dispatch_never_waits", "sap_target_bridge", "insert_socket_bridge", "remove_socket_bridge",
+        "remove_last_bridge", "sap_mode_bridge", "mode_tests_bridge", "run_timeout_bridge", "gen_timeout_exceeds_lto",
+        "run_dps_bridge", "gen_bad_dps_terminates", "run_symm_bridge", "run_idle_bridge", "crypto_bridge",
+        "gen_decrypt_iff_encrypt", "run_finally_bridge", "run_go_on_bridge", "terminate_order_bridge", "gen_term_steps",
+        "terminate_live_bridge", "raw_first_bridge", "first_sendack_bridge", "icv_bridge", "encrypt_bridge",
+        "agg_pass_bridge", "agg_loop_bridge", "agg_acks_bridge", "aggregate_bridge", "collect_bridge", "misc_bridge",
+        "gen_late_bind_never_leaks", "gen_collect_frame_bound")],
+    "properties": ["C07", "C09", "C10"],
+}
+NAMES = ["SYMM", "PAX", "AGF", "UI", "CONNECT", "DISC", "CC", "DM", "FRMR", "SNL", "DPS", "I", "RR", "RNR", "0010", "1111"]
 
 
 def inputs(rng, sp):
-    return []
+    out = []
+    n = sp.lean
+    if n == "lr_dispatch_ignore":
+        out += [([], [b, nm]) for b in (False, True) for nm in NAMES]
+    if n == "lr_dispatch_is_agf":
+        out += [([], [nm]) for nm in NAMES]
+    if n == "lr_dispatch_agf_ok":
+        out += [([], [d, s_]) for d in (0, 1, 32, 63) for s_ in (0, 1, 32, 63)]
+    if n == "lr_dispatch_by_name":
+        out += [([], [nm, d]) for nm in NAMES for d in (0, 1, 2, 4, 63)]
+    if n in ("lr_dispatch_decrypt", "lr_collect_encrypt0", "lr_collect_encrypt1"):
+        out += [([], [b, nm]) for b in (False, True) for nm in NAMES]
+    if n == "lr_dispatch_sap_at":
+        tab = [None] * 64
+        tab[0] = tab[1] = tab[4] = tab[32] = 1
+        out += [([], [tab, d]) for d in (0, 1, 2, 4, 31, 32, 33, 63, 64, 65, 100, -1, -64, -65)]
+        out += [([], [[1, None, 2], d]) for d in (0, 1, 2, 3, -1, -3, -4)]
+    if n == "lr_dispatch_sap_ok":
+        out += [([v], []) for v in (None, 1, 2, 0)]
+    if n == "lr_enqueue_peer_sel":
+        out += [([], [s_, pn, p]) for s_ in (0, 1, 16, 32, 63) for pn in (False, True) for p in (0, 1, 16, 32, 63)]
+    if n in ("lr_enqueue_dm_no_listener", "lr_enqueue_dm_no_peer"):
+        out += [([], [a, b]) for a in (0, 1, 32, 63) for b in (0, 4, 16, 63)]
+    if n == "lr_insert_socket":
+        out += [([s_], [l]) for s_ in (1, 7) for l in ([], [3], [3, 5], [7, 7])]
+    if n == "lr_remove_socket":
+        out += [([s_], [l]) for s_ in (1, 7) for l in ([], [7], [3, 7, 5], [7, 3, 7], [3, 5])]
+    if n == "lr_sap_mode":
+        out += [([], [a, b, c]) for a in (False, True) for b in (False, True) for c in (False, True)]
+    if n == "lr_remove_last":
+        out += [([], [l]) for l in ([], [1], [1, 2])]
+    if n == "lr_remove_name":
+        out += [([a], [b]) for a in (0, 1, 16, 32) for b in (0, 1, 16, 32)]
+    if n in ("lr_collect_raw_key", "lr_collect_dlc_mode0", "lr_collect_dlc_mode1"):
+        out += [([], [m]) for m in (0, 1, 2, 3)]
+    if n == "lr_collect_no_agf":
+        out += [([], [a, b]) for a in (False, True) for b in (False, True)]
+    if n in ("lr_collect_loop_go", "lr_collect_pass_stop", "lr_collect_acks_go", "lr_collect_acks_stop"):
+        out += [([m], []) for m in (-3, -1, 0, 1, 125)]
+    if n == "lr_collect_loop_stop":
+        out += [([m, b], []) for m in (-3, -1, 0, 1, 125) for b in (False, True)]
+    if n == "lr_collect_result":
+        out += [([], [c]) for c in (0, 1, 2, 3)]
+    if n == "lr_exchange_has_data":
+        out += [([v], []) for v in (None, b"", b"\x00\x00")]
+    if n in ("lr_run_timeout_ms", "lr_run_timeout_ms_t"):
+        out += [([], [v]) for v in (0, 10, 100, 500, 2550)]
+    if n in ("lr_run_secure", "lr_run_secure_t"):
+        out += [([], [v]) for v in (0, 1, 2)]
+    if n in ("lr_run_ecpk_bad", "lr_run_ecpk_bad_t"):
+        out += [([], [bytes(k)]) for k in (0, 1, 63, 64, 65, 128)]
+    if n in ("lr_run_rn_bad", "lr_run_rn_bad_t"):
+        out += [([], [bytes(k)]) for k in (0, 1, 7, 8, 9, 16)]
+    if n in ("lr_run_go_on", "lr_run_go_on_t", "lr_run_finally", "lr_run_finally_t", "lr_terminate_disc"):
+        out += [([], [False]), ([], [True])]
+    if n == "lr_run_symm_count":
+        out += [([k], [nm]) for k in (0, 9, 10) for nm in NAMES]
+    if n == "lr_run_symm_count_t":
+        out += [([k], [b]) for k in (0, 9, 10) for b in (False, True)]
+    if n in ("lr_run_idle", "lr_run_idle_t"):
+        out += [([k], [b]) for k in (0, 9, 10, 11) for b in (False, True)]
+    if n == "lr_terminate_live":
+        tab = [None] * 64
+        tab[0] = tab[1] = tab[63] = 1
+        out += [([i], [tab]) for i in (0, 1, 2, 62, 63, 64, -1)]
+    return out
 
 
-MUTATIONS = []
+def accept(sp, pv, bv):
+    return True
+
+
+MUTATIONS = [
+    ("lr_insert_socket", "lead seed: a new socket is appended behind the older ones (peer matching order of enqueue)",
+     "self.sock_list.appendleft(socket)", "self.sock_list.append(socket)"),
+    ("lr_enqueue_peer_sel", "unconnected sockets no longer receive", "if rcvd_pdu.ssap == socket.peer or socket.peer is None:",
+     "if rcvd_pdu.ssap == socket.peer:"),
+    ("lr_enqueue_peer_sel", "peer compared with the destination address", "rcvd_pdu.ssap == socket.peer or", "rcvd_pdu.dsap == socket.peer or"),
+    ("lr_enqueue_dm_no_listener", "DM reason for a CONNECT without listener", "args = (rcvd_pdu.ssap, rcvd_pdu.dsap, 0x02)", "args = (rcvd_pdu.ssap, rcvd_pdu.dsap, 0x03)"),
+    ("lr_enqueue_dm_no_peer", "DM addresses not swapped", "args = (rcvd_pdu.ssap, rcvd_pdu.dsap, 0x01)", "args = (rcvd_pdu.dsap, rcvd_pdu.ssap, 0x01)"),
+    ("lr_dispatch_ignore", "SYMM PDUs dispatched", "if rcvd_pdu is None or rcvd_pdu.name == \"SYMM\":", "if rcvd_pdu is None:"),
+    ("lr_dispatch_agf_ok", "aggregates with any source address unpacked", "if rcvd_pdu.dsap == 0 and rcvd_pdu.ssap == 0:", "if rcvd_pdu.dsap == 0:"),
+    ("lr_dispatch_by_name", "connect-by-name address", "rcvd_pdu.name == \"CONNECT\" and rcvd_pdu.dsap == 1", "rcvd_pdu.name == \"CONNECT\" and rcvd_pdu.dsap == 0"),
+    ("lr_dispatch_decrypt", "only I PDUs decrypted", "if self.sec and rcvd_pdu.name in (\"UI\", \"I\"):", "if self.sec and rcvd_pdu.name in (\"I\", \"I\"):"),
+    ("lr_dispatch_sap_at", "table indexed by the source address", "sap = self.sap[rcvd_pdu.dsap]", "sap = self.sap[rcvd_pdu.ssap]"),
+    ("lr_sap_mode", "mode constants of LDL and DLC swapped", "return LOGICAL_DATA_LINK\n                if isinstance(self.sock_list[0], tco.DataLinkConnection):\n                    return DATA_LINK_CONNECTION",
+     "return DATA_LINK_CONNECTION\n                if isinstance(self.sock_list[0], tco.DataLinkConnection):\n                    return LOGICAL_DATA_LINK"),
+    ("lr_sap_mode_empty", "mode of an empty SAP", "except IndexError:\n                return 0", "except IndexError:\n                return 1"),
+    ("lr_remove_socket", "NEUTRAL comment in remove_socket", "# completely remove this sap", "# remove this sap completely"),
+    ("lr_remove_last", "SAP removed while a socket is left", "if len(self.sock_list) == 0:", "if len(self.sock_list) <= 1:"),
+    ("lr_remove_name", "all service names deleted", "if addr == self.addr:", "if addr >= 0:"),
+    ("lr_collect_raw_key", "data link connections sorted first", "key=lambda sap: sap.mode == RAW_ACCESS_POINT", "key=lambda sap: sap.mode == DATA_LINK_CONNECTION"),
+    ("lr_collect_encrypt1", "aggregated UI PDUs not encrypted",
+     "deq_none = False\n                        if self.sec and send_pdu.name in (\"UI\", \"I\"):", "deq_none = False\n                        if self.sec and send_pdu.name in (\"I\",):"),
+    ("lr_collect_no_agf", "aggregation although send-agf is False", "if send_pdu is None or self.cfg['send-agf'] is False:", "if send_pdu is None:"),
+    ("lr_collect_loop_go", "aggregation loop needs a positive budget", "while miu_size >= 0:", "while miu_size > 0:"),
+    ("lr_collect_loop_stop", "aggregation goes on after an empty pass", "if miu_size < 0 or deq_none:", "if miu_size < 0:"),
+    ("lr_collect_result", "a single PDU sent as an aggregate", "return agf_pdu if agf_pdu.count > 1 else agf_pdu.first", "return agf_pdu if agf_pdu.count > 0 else agf_pdu.first"),
+    ("lr_exchange_has_data", "empty data treated as no data", "if rcvd_data is not None:", "if rcvd_data:"),
+    ("lr_run_timeout_ms", "receive timeout without margin", "recv_timeout = 1E-3 * (self.cfg['recv-lto'] + 10)", "recv_timeout = 1E-3 * (self.cfg['recv-lto'] - 10)"),
+    ("lr_run_ecpk_bad", "ECPK length", "len(rcvd_dps.ecpk) == 64", "len(rcvd_dps.ecpk) == 32"),
+    ("lr_run_rn_bad_t", "RN length check dropped on the target", "if not (rcvd_dps.rn and len(rcvd_dps.rn) == 8):", "if not rcvd_dps.rn:"),
+    ("lr_run_symm_count", "SYMM counter counts every PDU", "symm += 1 if rcvd_pdu.name == \"SYMM\" else 0", "symm += 1"),
+    ("lr_run_idle_t", "idle threshold", "if send_pdu is None and symm >= 10:", "if send_pdu is None and symm >= 1:"),
+    ("lr_run_finally", "finally clause terminates only when SHUTDOWN", "if not self.link.SHUTDOWN:", "if self.link.SHUTDOWN:"),
+    ("lr_terminate_order", "address 0 not shut down", "for i in range(63, -1, -1):", "for i in range(63, 0, -1):"),
+    ("lr_terminate_disc", "DISC sent in every termination", "if self.link.DISCONNECT is True:", "if self.link.DISCONNECT is not None:"),
+    ("lr_run_secure", "NEUTRAL key agreement test written the other way round", "if self.cfg['llcp-dpc'] == 1:", "if 1 == self.cfg['llcp-dpc']:"),
+]
